@@ -1,25 +1,40 @@
 use crate::find_parser::prelude::*;
 
+/// True if the size in bytes can be represented, so that [Size::byte_size] cannot overflow
+fn fits(size: &Size) -> bool {
+    let (Size::Byte(count)
+    | Size::Word(count)
+    | Size::Block(count)
+    | Size::KiloByte(count)
+    | Size::MegaByte(count)
+    | Size::GigaByte(count)
+    | Size::TeraByte(count)) = size;
+
+    count.checked_mul(size.mult()).is_some()
+}
+
 impl Parseable for Size {
     fn parse(input: &mut &str) -> PResult<Size> {
         alt((
-            (u64::parse, one_of(|c| "bcwkMGT".contains(c))).map(|(num, unit)| match unit {
-                'b' => Size::Block(num),
-                'c' => Size::Byte(num),
-                'w' => Size::Word(num),
-                'k' => Size::KiloByte(num),
-                'M' => Size::MegaByte(num),
-                'G' => Size::GigaByte(num),
-                'T' => Size::TeraByte(num),
-                _ => unreachable!(),
-            }),
+            (u64::parse, one_of(|c| "bcwkMGT".contains(c)))
+                .map(|(num, unit)| match unit {
+                    'b' => Size::Block(num),
+                    'c' => Size::Byte(num),
+                    'w' => Size::Word(num),
+                    'k' => Size::KiloByte(num),
+                    'M' => Size::MegaByte(num),
+                    'G' => Size::GigaByte(num),
+                    'T' => Size::TeraByte(num),
+                    _ => unreachable!(),
+                })
+                .verify(fits),
             // Not very pretty, we check for a [0-9]+[a-z]+ and if met then fail with the proper
             // error. We do this once all the valid specs have been checked but before we attempt a
             // specless parse, doing so would end up leaving some junk in the input
             terminated(digit1, alpha1)
                 .and_then(cut_err(fail.context(expected("invalid_size_specifier")))),
             // Default. For Size this is Block
-            u64::parse.map(Size::Block),
+            u64::parse.map(Size::Block).verify(fits),
         ))
         .context(label("size"))
         .parse_next(input)
